@@ -47,7 +47,7 @@ Explained(D) ==
      p.j = Len(reps) + 1 /\ OutcomeOf(p.st) = outcome
 
 (* --- 2. the observed history: reply i answers line i; the line after the last reply is where the
-   server finished, gave up or panicked; the server's state is inferred from its own replies --- *)
+   server finished, gave up, panicked or stalled; the server's state is inferred from its own replies --- *)
 AfterReply(from, reply) ==
   CASE reply = "OK" -> "WaitBegin" [] reply = "REJECTED" -> "WaitAuth" [] reply = "DATA" -> "WaitData" [] OTHER -> from
 RECURSIVE FromAt(_, _)
@@ -57,7 +57,7 @@ ObsHist(cm, rp, oc) ==
       nl == Len(cm)
       k == IF n < nl THEN n ELSE nl
       answered == [i \in 1..k |-> [cmd |-> cm[i], from |-> FromAt(rp, i), reply |-> rp[i]]]
-      last == IF oc # "waiting" /\ nl > n /\ n = k
+      last == IF nl > n /\ n = k
                 THEN <<[cmd |-> cm[n + 1], from |-> FromAt(rp, n + 1), reply |-> "none"]>> ELSE <<>>
   IN answered \o last
 ObsSt(rp, oc) == CASE oc = "authenticated" -> "Done" [] oc = "failed" -> "Failed" [] oc = "panic" -> "Panic"
@@ -90,7 +90,7 @@ ExplainingDevs ==
 
 Summary == [cfg |-> cfg, cmds |-> cmds, replies |-> reps, outcome |-> outcome]
 
-LineOk ==
+LineVerdict ==
   IF Explained({}) THEN TRUE
   ELSE LET ds == ExplainingDevs IN
     IF ds # {} THEN Report("known", [devs |-> CHOOSE D \in ds : TRUE, obs |-> Summary])
@@ -108,5 +108,15 @@ LineOk ==
          /\ (compl \/ Report("auth-complete", Summary))
          /\ ((~wf \/ ~(panicOk /\ sound /\ rej /\ err /\ compl)) \/ Report("drift", Summary))
          /\ (wf \/ Report("drift", [malformed |-> TRUE, obs |-> Summary]))
+\* enumerated cases: the commands read back from the bytes are the commands the generator meant
+NormCmd(c) == IF c.k = "UNKNOWN" THEN [k |-> "UNKNOWN"] ELSE c
+AbsOk == LET a == Rec[l].abs IN
+         ("lines" \in DOMAIN a /\ a.nul) =>
+            /\ Len(cmds) = Len(a.lines)
+            /\ \A i \in 1..Len(cmds) : NormCmd(cmds[i]) = NormCmd(a.lines[i])
+
+LineOk ==
+  /\ (AbsOk \/ Report("spec-selfcheck", [read |-> cmds, meant |-> Rec[l].abs]))
+  /\ LineVerdict
 Inv == LineOk \/ TRUE
 =============================================================================
